@@ -129,3 +129,99 @@ def ob_merge_unit(new_i: int, old_i: int) -> bool:
         return (want != 'ValueError' and [m.tag for m in got] == want and got is not new and got is not old and
                 [m.tag for m in old] == ['%s@o%d' % (CLASSES[i].__name__, k) for k, i in enumerate(lo)] and
                 [m.tag for m in new] == ['%s@n%d' % (CLASSES[i].__name__, k) for k, i in enumerate(ln)])
+
+
+# ------------------------------------------------------------------ special middleware kinds: all three phases observed
+def _mk3(name, unique=True, hook_objects=False):
+    """a middleware type with request, endpoint and render hooks that log entry/exit; hook_objects: the hooks are callable
+    OBJECTS assigned per instance (not methods)"""
+    def mkhook(phase):
+        def hook(self, next):
+            LOG.append('%s.%s>' % (self.tag, phase))
+            try:
+                return next()
+            finally:
+                LOG.append('%s.%s<' % (self.tag, phase))
+        return hook
+    if not hook_objects:
+        return type(name, (Middleware,), {'unique': unique, 'request': mkhook('q'), 'endpoint': mkhook('e'), 'render': mkhook('r')})
+
+    class _Hook(object):
+        def __init__(self, owner, phase):
+            self.owner, self.phase = owner, phase
+
+        def __call__(self, next):
+            LOG.append('%s.%s>' % (self.owner.tag, self.phase))
+            try:
+                return next()
+            finally:
+                LOG.append('%s.%s<' % (self.owner.tag, self.phase))
+
+    def __init__(self):
+        self.request, self.endpoint, self.render = _Hook(self, 'q'), _Hook(self, 'e'), _Hook(self, 'r')
+    return type(name, (Middleware,), {'unique': unique, '__init__': __init__})
+
+
+SP_CLASSES = [_mk3('P'), _mk3('P'), _mk3('HookObj', hook_objects=True), _mk3('Multi', unique=False)]    # two DIFFERENT classes both named "P"
+SP_LISTS = [[]] + [[i] for i in range(4)] + [[i, j] for i in range(4) for j in range(4)]
+NSP = len(SP_LISTS)
+
+
+def _special(outer_i, mid_sel, inner_i):
+    """three levels (application, embedded application, route) of lists over: two distinct classes that share a __name__,
+    a class whose hooks are callable objects, a non-unique class (several instances in one stack).  The request,
+    endpoint and render phases each nest in merged-list order."""
+    del LOG[:]
+    mids = [None, [3], [0, 3], [2]]
+    lo, li, lm = SP_LISTS[outer_i], SP_LISTS[inner_i], mids[mid_sel]
+    for l in (lo, li, lm or []):
+        if any(SP_CLASSES[i].unique and l.count(i) > 1 for i in l):
+            return True
+
+    def inst(idx, level):
+        out = []
+        for k, i in enumerate(idx):
+            m = SP_CLASSES[i]()
+            m.tag = 'c%d@%s%d' % (i, level, k)
+            out.append(m)
+        return out
+    outer, mid, inner = inst(lo, 'o'), inst(lm or [], 'm'), inst(li, 'r')
+    merged = []
+    for lv in ([outer, mid, inner] if lm is not None else [outer, inner]):
+        for m in lv:
+            if type(m).unique and any(type(x) is type(m) for x in merged):
+                continue
+            merged.append(m)
+    want = []
+    for ph in ('q', 'e'):
+        want += ['%s.%s>' % (m.tag, ph) for m in merged]
+    want.append('EP')
+    want += ['%s.e<' % m.tag for m in reversed(merged)]
+    want += ['%s.r>' % m.tag for m in merged] + ['RN'] + ['%s.r<' % m.tag for m in reversed(merged)]
+    want += ['%s.q<' % m.tag for m in reversed(merged)]
+
+    def ep():
+        LOG.append('EP')
+        return {}
+
+    def rn(context):
+        LOG.append('RN')
+        return Response('ok')
+    route = Route('/x', ep, rn, middlewares=inner)
+    if lm is not None:
+        app = Application([('/p', Application([route], middlewares=mid))], middlewares=outer)
+        path = '/p/x'
+    else:
+        app = Application([route], middlewares=outer)
+        path = '/x'
+    resp = app.dispatch(Request(EnvironBuilder(path=path).get_environ()))
+    return resp.status_code == 200 and LOG == want
+
+
+def ob_special(outer_i: int, mid_sel: int, inner_i: int) -> bool:
+    with untraced():
+        return _special(outer_i, mid_sel, inner_i)
+
+
+def confirm_special(outer_i, mid_sel, inner_i):
+    return not _special(outer_i, mid_sel, inner_i)
